@@ -34,12 +34,22 @@ partial def astJ : Ast → Json
   | .loop v a => jarr [jstr "O", jnat v, astJ a]
   | .block cs => jarr [jstr "B", jarr (cs.map astJ)]
 
+def evJ : Ev → Json
+  | .inst n => jarr [jstr "inst", jnat n]
+  | .ifBegin c => jarr [jstr "if", condJ c]
+  | .elseBegin => jstr "else"
+  | .ifEnd => jstr "endif"
+  | .forBegin v => jarr [jstr "for", jnat v]
+  | .forEnd v => jarr [jstr "endfor", jnat v]
+
 def handle (op : String) (j : Json) : R Json := do
   match op with
   | "simplify" =>
     let a ← astOf (← field j "ast")
     match simplify a with
-    | .ok a' => pure (jobj [("ok", astJ a')])
+    | .ok a' => pure (jobj [("ok", astJ a'), ("walk", match walk a' with
+        | some evs => jarr (evs.map evJ)
+        | none => jstr "ValueError")])
     | .error .indexError => pure (jobj [("err", jstr "IndexError")])
   | _ => throw s!"unknown op C06.{op}"
 
